@@ -42,7 +42,7 @@ def programs(nmax, statuses):
 def render(ops, stats, variant):
     parts = []
     for i, s in enumerate(stats):
-        if variant in ('plain', 'tight', 'trailing-semicolon', 'wide'):
+        if variant in ('plain', 'tight', 'trailing-semicolon', 'trailing-semicolon-blank', 'wide'):
             p = 'vh-mark %d %d $?' % (i + 1, s)
         elif variant.startswith('decoy'):
             d = DECOYS[int(variant[5:])]
@@ -56,6 +56,8 @@ def render(ops, stats, variant):
         return ''.join(parts)
     if variant == 'trailing-semicolon':
         return ' '.join(parts) + ' ;'
+    if variant == 'trailing-semicolon-blank':     # blanks after the last `;` are not a member
+        return ' '.join(parts) + ' ;  '
     if variant == 'wide':           # leading / repeated blanks
         return '  ' + '   '.join(parts) + '  '
     return ' '.join(parts)
@@ -214,9 +216,9 @@ def run(rep, tier):
         for k in range(len(DECOYS)):
             cases.append((ops, stats, 'decoy%d' % k, 'c'))
         cases.append((ops, stats, 'pipe', 'c'))
-    # spellings: operators without blanks, a trailing `;`, leading and repeated blanks
+    # spellings: operators without blanks, a trailing `;` (also followed by blanks), leading and repeated blanks
     for ops, stats in programs(4 if tier == 'thorough' else 3, (0, 1)):
-        for v in ('tight', 'trailing-semicolon', 'wide'):
+        for v in ('tight', 'trailing-semicolon', 'trailing-semicolon-blank', 'wide'):
             cases.append((ops, stats, v, 'c'))
             if len(stats) <= 2:
                 cases.append((ops, stats, v, 'script'))
